@@ -232,6 +232,10 @@ class P:
                 self.next(); ty = self.type_(stops=(',', ')', '{', '=', ';', '>', '<', '+', '-', '*', '/', '|', '&', '^', '==', '!=', '<<', '>>', '}', ']'))
                 lhs = ('cast', lhs, ty); continue
             if k != 'op': break
+            if v == '..=' and minp == 0:
+                self.next()
+                hi = self.expr(nostruct, 1)
+                lhs = ('range', lhs, ('bin', '+', hi, ('lit', 1))); continue
             if v == '..' and minp == 0:
                 self.next()
                 hi = None
@@ -610,6 +614,7 @@ class Cfg:
         self.types, self.field_fault, self.field_rename = types, field_fault, field_rename
         self.err, self.fuel_err, self.assert_mode = err, fuel_err, assert_mode
         self.err_ctors = err_ctors or {}
+        self.elem_setters = {}
         self.places = places or {}       # method name -> True: `recv.m(E)` denotes the place recv.items[recv.offset(E)]
 
 def map_type(ty, cfg, item_ty=None):
@@ -617,6 +622,8 @@ def map_type(ty, cfg, item_ty=None):
     t = ty.replace(' ', '')
     t = re.sub(r"&('[a-z_]+)?(mut)?", '', t)
     if t in ('u8', 'u16', 'u32', 'u64', 'usize', 'char', 'NonZeroU32', 'U24'): return 'Nat'
+    m = re.fullmatch(r'\[(.*)\]', t)
+    if m: return f'List {paren(map_type(m.group(1), cfg, item_ty))}'
     if t == 'bool': return 'Bool'
     if t == 'V': return 'V'
     if t in ('P', 'I') : return 'List Nat'
@@ -664,6 +671,7 @@ class FnT:
         self.self_mut = f['selfkind'] == 'mut'
         self.self_ty = unit.struct_lean_type(f['target']) if f['selfkind'] else None
         self.panics = unit.panics[(f['target'], f['name'])]
+        self.mutrefs = [n for (n, ty, _) in f['params'] if ty.replace(' ', '').startswith('&mut')]
 
     def fresh(self, base='t'):
         self.tmp += 1
@@ -673,7 +681,8 @@ class FnT:
     def ok(self, term):
         return f'.ok {paren_t(term)}' if self.eff else term
     def pack_ret(self, v):
-        v = f'({v}, self)' if self.self_mut else v
+        extra = (['self'] if self.self_mut else []) + [lname(m) for m in self.mutrefs]
+        v = f'({", ".join([v] + extra)})' if extra else v
         return f'(some {v})' if self.panics else v
     def bind(self, term, pat, rest, ind):
         """term : Except Fault α  (only in effectful functions)"""
@@ -702,9 +711,27 @@ class FnT:
             return None
         if k in ('block',) and e[2] is not None and not e[1]:
             return self.type_of(e[2], env)
-        if k == 'call' and e[1][0] == 'path' and len(e[1][1]) == 2 and (e[1][1][0], e[1][1][1]) in self.u.fns:
-            r = self.u.fns[(e[1][1][0], e[1][1][1])]['ret']
-            return e[1][1][0] if r and r.strip() == 'Self' else r
+        if k == 'call' and e[1][0] == 'path' and len(e[1][1]) == 2:
+            t0 = self.f['target'] if e[1][1][0] == 'Self' else e[1][1][0]
+            if (t0, e[1][1][1]) in self.u.fns:
+                r = self.u.fns[(t0, e[1][1][1])]['ret']
+                if r: r = re.sub(r'\bSelf\b', t0, r)
+                return r
+        if k == 'try':
+            t = (self.type_of(e[1], env) or '')
+            m = re.fullmatch(r'\s*Result\s*<(.*)>\s*', t)
+            return m.group(1).strip() if m else None
+        if k == 'index':
+            t = (self.type_of(e[1], env) or '').replace(' ', '')
+            m = re.fullmatch(r'&?(?:mut)?\[(.*)\]', t) or re.fullmatch(r'Vec<(.*)>', t)
+            return m.group(1) if m else None
+        if k == 'tupfield':
+            t = (self.type_of(e[1], env) or '').replace(' ', '')
+            m = re.fullmatch(r'\((.*)\)', t)
+            if m:
+                parts = split_top(m.group(1))
+                if e[2] < len(parts): return parts[e[2]]
+            return None
         if k == 'lit': return 'u32'
         return None
 
@@ -742,10 +769,14 @@ class FnT:
             lop = {'+': '+', '-': '-', '*': '*', '%': '%', '^': '^^^', '&': '&&&', '|': '|||', '<<': '<<<', '>>': '>>>',
                    '==': '==', '!=': '!=', '<': '<', '<=': '≤', '>': '>', '>=': '≥', '&&': '&&', '||': '||'}.get(op)
             if lop is None: raise TErr(f'{self.f["where"]}: binary `{op}` is not supported')
-            if op in ('&&', '||'):
-                # short-circuit: the right operand may have effects only if the left allows it
-                if self.has_effect(e[3]):
-                    raise TErr(f'{self.f["where"]}: effectful right operand of `{op}`')
+            if op in ('&&', '||') and self.has_effect(e[3]):
+                # short-circuit: the right operand (which may fault) is evaluated only when needed
+                def ksc(a, env, ind):
+                    pad = '  ' * ind
+                    if op == '||':
+                        return f'if {a} then\n{pad}  {k("true", env, ind + 1)}\n{pad}else\n{pad}  {self.tx(e[3], env, ind + 1, k)}'
+                    return f'if {a} then\n{pad}  {self.tx(e[3], env, ind + 1, k)}\n{pad}else\n{pad}  {k("false", env, ind + 1)}'
+                return self.tx(e[2], env, ind, ksc)
             def k1(a, env, ind):
                 def k2(b, env, ind):
                     if op in ('==', '!=', '<', '<=', '>', '>='):
@@ -761,6 +792,8 @@ class FnT:
                 if ren == '': return k(r, env, ind)          # transparent field (e.g. `mapper`)
                 return k(f'{r}.{lname(ren) if ren else self.u.fld(h, fld)}', env, ind)
             return self.tx(e[1], env, ind, kf)
+        if kind == 'tupfield':
+            return self.tx(e[1], env, ind, lambda t, env, ind: k(f'{t}.{e[2] + 1}', env, ind))
         if kind == 'block':
             return self.tx_block(e, env, ind, k)
         if kind == 'struct':
@@ -828,10 +861,11 @@ class FnT:
             return self.emit_loop(e[1], env, ind, k, mode='for-iter')
         if kind == 'index':
             self.need_eff('indexing')
+            is_list = (self.type_of(e[1], env) or '').replace(' ', '').lstrip('&').startswith('[')
             def kix(r, env, ind):
                 def kiy(t, env, ind):
                     v = self.fresh('x')
-                    return self.bind(f'Rs.index {paren_t(r)} {paren_t(t)}', v, lambda i2: k(v, env, i2), ind)
+                    return self.bind(f'Rs.{"indexL" if is_list else "index"} {paren_t(r)} {paren_t(t)}', v, lambda i2: k(v, env, i2), ind)
                 return self.tx(e[2], env, ind, kiy)
             return self.tx(e[1], env, ind, kix)
         if kind == 'range':
@@ -1091,6 +1125,16 @@ class FnT:
             # stateful iterator place: loop { if let Some(pat) = place.next() { body } else { break } }
             inner = ('iflet', ('penum', ['Some'], [pat]), ('mcall', it[1], 'next', []), body, ('block', [('expr', ('break',))], None))
             return self.emit_loop(('block', [('expr', inner)], None), env, ind, k, mode='for-iter')
+        ith = type_head(self.type_of(it, env))
+        if ith and (ith, 'next') in self.u.selected:
+            # `for p in <translated iterator>`: let mut it = …; loop { match it.next() { Some(p) => body, None => break } }
+            def kit(t, env, ind):
+                v = self.fresh('iter')
+                env2 = dict(env, vars=env['vars'] + [v], muts=env['muts'] + [v], types=dict(env['types'], **{v: ith}))
+                inner = ('iflet', ('penum', ['Some'], [pat]), ('mcall', ('path', [v]), 'next', []), body, ('block', [('expr', ('break',))], None))
+                pad = '  ' * ind
+                return f'let {v} := {t}\n{pad}' + self.emit_loop(('block', [('expr', inner)], None), env2, ind, k, mode='for-iter')
+            return self.tx(it, env, ind, kit)
         if it[0] == 'range' and it[2] is not None:
             # `for x in a..b`: structural recursion over the list a, a+1, …, b-1
             return self.tx_list([it[1], it[2]], env, ind, lambda ts, env, ind:
@@ -1163,6 +1207,9 @@ class FnT:
             if it[2] == 'chars': return 'char'
             if it[2] in ('iter', 'as_ref', 'as_bytes', 'copied'): return self.list_elem_type(it[1], env)
         if it[0] == 'lit': return 'u32'
+        t = (self.type_of(it, env) or '').replace(' ', '')
+        m = re.fullmatch(r'&?(?:mut)?\[(.*)\]', t)
+        if m: return m.group(1)
         return 'u8'
 
     def ret_lean_type(self):
@@ -1172,7 +1219,8 @@ class FnT:
         if ret and ret.strip() == 'Self': ret = self.f['target']
         if ret and ret.replace(' ', '') == '()': ret = None
         r = map_type(ret, self.cfg, self.f['item_ty']) if ret else 'Unit'
-        r = f'{paren(r)} × {paren(self.self_ty)}' if self.self_mut else r
+        extra = ([self.self_ty] if self.self_mut else []) + [map_type(ty, self.cfg) for (n, ty, _) in self.f['params'] if n in self.mutrefs]
+        r = ' × '.join(paren(x) for x in [r] + extra) if extra else r
         return f'Option {paren(r)}' if self.panics else r
 
     # ---- calls
@@ -1201,17 +1249,27 @@ class FnT:
                 return self.bind(f'Rs.charFromU32Unchecked {t}', v, lambda i2: k(v, env, i2), ind)
             self.need_eff(name)
             return self.tx(args[0], env, ind, kc)
+        if len(path) == 2 and path[0] == 'Self': path = [self.f['target'], path[1]]
         if len(path) == 2 and (path[0], path[1]) in self.u.selected:
             callee = self.u.fns[(path[0], path[1])]
-            if callee['selfkind'] or self.u.effectful[(path[0], path[1])] or self.u.panics[(path[0], path[1])]:
+            ckey = (path[0], path[1])
+            if callee['selfkind'] or self.u.panics[ckey] or any(ty.replace(' ', '').startswith('&mut') for (_, ty, _) in callee['params']):
                 raise TErr(f'{self.f["where"]}: static call of `{name}`: unsupported callee kind')
             cname = self.u.lean_fn_name(callee)
+            vb = ' (V := V)' if self.u.has_v else ''
             def kc(ts, env, ind):
                 ts2 = []
                 for t, a, (pn, pty, _) in zip(ts, args, callee['params']):
                     ts2.append(self.coerce_iter(t, a, pty, env))
-                return k(f'({cname} (V := V) {" ".join(paren_t(t) for t in ts2)})', env, ind)
+                call = f'{cname}{vb} {" ".join(paren_t(t) for t in ts2)}'
+                if self.u.effectful[ckey]:
+                    self.need_eff(cname)
+                    v = self.fresh('r')
+                    return self.bind(call, v, lambda i2: k(v, env, i2), ind)
+                return k(f'({call})', env, ind)
             return self.tx_list(args, env, ind, kc)
+        if name in self.cfg.consts and not args:
+            return k(self.cfg.consts[name], env, ind)
         raise TErr(f'{self.f["where"]}: call of `{name}` is not in the supported subset')
 
     def coerce_iter(self, t, arg, param_ty, env):
@@ -1297,6 +1355,43 @@ class FnT:
             def kr(r, env, ind):
                 return self.tx_list(args, env, ind, lambda ts, env, ind: k(fmt.format(r=r, a=ts), env, ind))
             return self.tx(recv, env, ind, kr)
+        if m == 'unwrap' and not args and self.is_result_expr(recv, env):
+            self.need_eff('unwrap')
+            # Result::unwrap: an error becomes a panic; the value (and the `&mut` receiver update) flows on
+            if not (recv[0] == 'mcall' and (type_head(self.type_of(recv[1], env)), recv[2]) in self.u.selected):
+                raise TErr(f'{self.f["where"]}: `.unwrap()` on an unsupported Result expression')
+            key = (type_head(self.type_of(recv[1], env)), recv[2])
+            callee = self.u.fns[key]; cname = self.u.lean_fn_name(callee)
+            def kr0(r, env, ind):
+                def ka0(ts, env, ind):
+                    call = f'{cname} {r} {" ".join(paren_t(t) for t in ts)}'.rstrip()
+                    pad = '  ' * ind
+                    v, s2 = self.fresh('r'), self.fresh('s')
+                    if callee['selfkind'] == 'mut':
+                        return (f'match {call} with\n{pad}| .error _ => .error (.panic {lean_str(recv[2] + "().unwrap()")})\n{pad}| .ok ({v}, {s2}) =>\n{pad}  '
+                                + self.place_write_expr(recv[1], s2, env, ind + 1) + k(v, env, ind + 1))
+                    return (f'match {call} with\n{pad}| .error _ => .error (.panic {lean_str(recv[2] + "().unwrap()")})\n{pad}| .ok {v} =>\n{pad}  ' + k(v, env, ind + 1))
+                return self.tx_list(recv[3], env, ind, ka0)
+            return self.tx(recv[1], env, ind, kr0)
+        if m in self.cfg.elem_setters and len(args) == 1 and recv[0] == 'index' and recv[1][0] == 'field' and recv[1][1] == ('path', ['self']):
+            # self.<vec>[i].set_x(v): checked indexing, then a field update of the element
+            if not self.self_mut: raise TErr(f'{self.f["where"]}: element update through `&self`')
+            self.need_eff('index')
+            fld, efld = lname(recv[1][2]), self.cfg.elem_setters[m]
+            def ki(ix, env, ind):
+                def kv(t, env, ind):
+                    it, a2 = self.fresh('el'), self.fresh('a')
+                    return self.bind(f'Rs.index self.{fld} {paren_t(ix)}', it, lambda i2:
+                                     f'let self := {{ self with {fld} := self.{fld}.setIfInBounds {paren_t(ix)} {{ {it} with {efld} := {t} }} }}\n{"  " * i2}' + k('()', env, i2), ind)
+                return self.tx(args[0], env, ind, kv)
+            return self.tx(recv[2], env, ind, ki)
+        if m == 'resize' and len(args) == 2 and recv[0] == 'field' and recv[1] == ('path', ['self']):
+            if not self.self_mut: raise TErr(f'{self.f["where"]}: resize through `&self`')
+            fld = lname(recv[2])
+            def kz(ts, env, ind):
+                pad = '  ' * ind
+                return f'let self := {{ self with {fld} := Rs.resize self.{fld} {paren_t(ts[0])} {paren_t(ts[1])} }}\n{pad}' + k('()', env, ind)
+            return self.tx_list(args, env, ind, kz)
         if m == 'unwrap' and not args:
             self.need_eff('unwrap')
             if recv[0] == 'call' and recv[1][0] == 'path' and '::'.join(recv[1][1]) == 'u32::try_from':
@@ -1499,7 +1594,7 @@ class FnT:
             if self.self_mut: env['muts'].append('self')
         for (n, ty, mut) in f['params']:
             env['vars'].append(n); env['types'][n] = ty
-            if mut: env['muts'].append(n)
+            if mut or n in self.mutrefs: env['muts'].append(n)
             sig.append(f'({lname(n)} : {map_type(ty, self.cfg, f["item_ty"])})')
         R = self.ret_lean_type()
         rt = f'Except {self.cfg.err} {paren(R)}' if self.eff else R
@@ -1533,6 +1628,8 @@ EFFECT_CALLS = {'from_u32_unchecked'}
 
 # method name -> (arity, Lean format)   [{r} receiver, {a[i]} arguments]
 SIMPLE_METHODS = {
+    'next_power_of_two': (0, '(Nat.nextPowerOfTwo {r})'), 'max': (1, '(max {r} {a[0]})'),
+    'is_empty': (0, '{r}.isEmpty'),
     'checked_mul': (1, '(Rs.checkedMulU32 {r} {a[0]})'), 'saturating_sub': (1, '({r} - {a[0]})'),
     'wrapping_sub': (1, '(Rs.wrappingSubU32 {r} {a[0]})'), 'len': (0, '{r}.size'),
     'base': (0, '(Rs.St.base {r})'), 'check': (0, '{r}.check'), 'fail': (0, '{r}.fail'),
@@ -1561,6 +1658,7 @@ class Unit:
         self.defs = {}
         self.default_structs, self.place_fns, self.place_elem, self.field_lens = [], set(), {}, {}
         self.rename_clashes = False
+        self.has_v = True
         # effect analysis: fixpoint over the selected functions
         self.bodies = {}
         for key in selected:
@@ -1682,7 +1780,7 @@ HEADER = '''/- GENERATED by /verif/tools/rs2lean.py from /repo's current source 
 import {prelude}
 set_option linter.unusedVariables false
 namespace Daac.Gen.{ns}
-open Daac
+open Daac{opens}
 
 '''
 
@@ -1723,7 +1821,7 @@ def main():
     cfgb = Cfg('B', 'DA V', consts, b_fuel, b_types, {'states': 'oobStates', 'outputs': 'oobOutputs'},
                {('DoubleArrayAhoCorasick', 'match_kind'): 'kind'})
     ub = Unit(repo, ['src/lib.rs', 'src/bytewise.rs', 'src/bytewise/iter.rs'], b_sel, cfgb, b_structs, ['U8SliceIterator'])
-    textb = HEADER.format(files='src/bytewise.rs, src/bytewise/iter.rs', ns='B', prelude='Daac.Gen.Prelude')
+    textb = HEADER.format(files='src/bytewise.rs, src/bytewise/iter.rs', ns='B', prelude='Daac.Gen.Prelude', opens='')
     textb += ub.gen_structs(['U8SliceIterator', 'FindIterator', 'FindOverlappingIterator', 'FindOverlappingNoSuffixIterator', 'LestmostFindIterator'])
     textb += ub.gen(b_sel)
     textb += 'end Daac.Gen.B\n'
@@ -1756,7 +1854,7 @@ def main():
                {('CharwiseDoubleArrayAhoCorasick', 'mapper'): '', ('CodeMapper', 'table'): 'mapTable',
                 ('CharwiseDoubleArrayAhoCorasick', 'match_kind'): 'kind'})
     uc = Unit(repo, ['src/lib.rs', 'src/charwise.rs', 'src/charwise/mapper.rs', 'src/charwise/iter.rs'], c_sel, cfgc, c_structs, ['StrIterator'])
-    textc = HEADER.format(files='src/charwise.rs, src/charwise/mapper.rs, src/charwise/iter.rs', ns='C', prelude='Daac.Gen.Prelude')
+    textc = HEADER.format(files='src/charwise.rs, src/charwise/mapper.rs, src/charwise/iter.rs', ns='C', prelude='Daac.Gen.Prelude', opens='')
     textc += uc.gen_structs(['StrIterator', 'CharWithEndOffsetIterator', 'FindIterator', 'FindOverlappingIterator', 'FindOverlappingNoSuffixIterator', 'LestmostFindIterator'])
     textc += uc.gen(c_sel)
     textc += 'end Daac.Gen.C\n'
@@ -1779,14 +1877,49 @@ def main():
     uh.rename_clashes = True
     uh.declare_places('BuildHelper', 'ListItem', 'get_ref', 'get_mut', {'next_mut': 'next', 'prev_mut': 'prev'}, ['ListItem'])
     uh.recompute_effects()
-    texth = HEADER.format(files='src/build_helper.rs', ns='H', prelude='Daac.Gen.PreludeBuild')
+    texth = HEADER.format(files='src/build_helper.rs', ns='H', prelude='Daac.Gen.PreludeBuild', opens='')
     texth += uh.gen_structs(['ListItem', 'BuildHelper', 'VacantIter'], with_v=False)
     texth += uh.gen_default('ListItem', src_h)
     texth += uh.gen(h_sel)
     texth += 'end Daac.Gen.H\n'
     results['Helper.lean'] = texth
+    # ---------------- construction side: array growth, BASE search, CHECK sanitising (both builders)
+    def layout_unit(ns, files, builder, extra_structs, extra_types, extra_sel, own_sel, consts_x, renames, src_check):
+        structs = dict(h_structs, **{builder: ('Builder', 'Builder')}, **extra_structs)
+        types = dict(h_types, State='St', MatchKind='Nat', **{builder: 'Builder'}, **extra_types)
+        types['Vec'] = 'Array St'
+        sel = h_sel + extra_sel + [(builder, m) for m in own_sel]
+        cfgl = Cfg(ns, 'Builder', dict(consts, **h_consts, **consts_x), {'Builder.find_base.loop0': 'helper.items.size + 1'}, types, {},
+                   {**{('Range', 'start'): '1', ('Range', 'end'): '2'}, **renames},
+                   err='BuildErr', fuel_err='(.panic "vacant list does not terminate")', assert_mode='panic',
+                   err_ctors={'DaachorseError::automaton_scale': '.automatonScale'},
+                   places={'get_ref': True, 'get_mut': True, '__mut__': 'get_mut'})
+        cfgl.elem_setters = {'set_check': 'check'}
+        u = Unit(repo, files, sel, cfgl, structs)
+        u.rename_clashes = True; u.has_v = False
+        u.declare_places('BuildHelper', 'ListItem', 'get_ref', 'get_mut', {'next_mut': 'next', 'prev_mut': 'prev'}, ['ListItem'])
+        u.recompute_effects()
+        src_check(u)
+        text = HEADER.format(files=', '.join(files[1:]), ns=ns, prelude='Daac.Gen.Helper\nimport Daac.Gen.Prelude\nimport Daac.Model.Build', opens=' Daac.Gen.H')
+        text += u.gen_structs([builder], with_v=False)
+        text += u.gen(extra_sel + [(builder, m) for m in own_sel])
+        text += f'end Daac.Gen.{ns}\n'
+        return u, text
+    def check_b(u):
+        srcb = open(os.path.join(repo, 'src/bytewise.rs'), encoding='utf-8').read()
+        if not re.search(r'#\[derive\([^)]*\bDefault\b[^)]*\)\]\s*struct State\b', srcb):
+            raise TErr('byte-wise State no longer derives Default (all-zero element)')
+    ulb, textlb = layout_unit('LB', ['src/build_helper.rs', 'src/bytewise/builder.rs'], 'DoubleArrayAhoCorasickBuilder', {}, {}, [],
+                              ['init_array', 'check_valid_base', 'find_base', 'remove_invalid_checks', 'extend_array'],
+                              {'BLOCK_LEN': 'Gen.blockLen', 'State::default': 'stDefaultB', 'u8::MIN': '0', 'u8::MAX': '255'}, {}, check_b)
+    results['LayoutB.lean'] = textlb
+    ulc, textlc = layout_unit('LC', ['src/build_helper.rs', 'src/charwise/mapper.rs', 'src/charwise/builder.rs'], 'CharwiseDoubleArrayAhoCorasickBuilder',
+                              {'CodeMapper': ('CodeMapper', 'Mapper')}, {'CodeMapper': 'Mapper'}, [('CodeMapper', 'alphabet_size')],
+                              ['init_array', 'verify_base', 'find_base', 'extend_array'],
+                              {'State::default': 'stDefaultC'}, {('CodeMapper', 'alphabet_size'): 'alphaSize', ('CodeMapper', 'table'): 'table'}, lambda u: None)
+    results['LayoutC.lean'] = textlc
     import hashlib, json
-    manifest = {k: hashlib.sha1(v.encode()).hexdigest()[:16] for u in (ub, uc, uh) for k, v in u.defs.items()}
+    manifest = {k: hashlib.sha1(v.encode()).hexdigest()[:16] for u in (ub, uc, uh, ulb, ulc) for k, v in u.defs.items() if not (u in (ulb, ulc) and k.split('.')[1] in ('ListItem', 'BuildHelper', 'VacantIter'))}
     results['search_defs.json'] = json.dumps(manifest, indent=1, sort_keys=True) + '\n'
     for name, text in results.items():
         path = os.path.join(outdir, name)
